@@ -1,8 +1,9 @@
 #!/bin/bash
-# confirm_seed.sh <prop> <n> : confirm a seeded change from /tmp/seed/<prop>/out/<n> in a scratch worktree of /repo HEAD
+# confirm_seed.sh <prop> <n> [<id>]: confirm a seeded change from ${SEEDROOT:-/tmp/seed}/<prop>/out/<n> in a scratch worktree of /repo HEAD
+# (<id> is the number it will be stored under, default <n>)
 # writes /tmp/confirm/<prop>_<n>.result
-P=$1; N=$2
-SRC=/tmp/seed/$P/out/$N
+P=$1; M=$2; N=${3:-$2}
+SRC=${SEEDROOT:-/tmp/seed}/$P/out/$M
 W=/tmp/confirm/wt_${P}_$N
 R=/tmp/confirm/${P}_$N.result
 mkdir -p /tmp/confirm
@@ -11,6 +12,7 @@ git -C /repo worktree remove --force $W >/dev/null 2>&1
 git -C /repo worktree add --detach $W HEAD >/dev/null 2>&1 || { echo "worktree failed" > $R; exit 1; }
 cd $W
 export OPENMDAO_REPORTS=0
+export PYTHONPATH=$W
 echo "prop=$P n=$N" >> $R
 timeout 600 /venv/bin/python $SRC/demo.py > /tmp/confirm/${P}_$N.demo_without.log 2>&1; echo "demo_without=$?" >> $R
 if git apply --check ${PATCHFILE:-$SRC/patch.diff} 2>/dev/null; then
